@@ -28,11 +28,11 @@ func GoatRun(p *oracle.Program, budget int64) goat.Result {
 
 // Verdict of comparing one program.
 type Verdict struct {
-	OK      bool
-	Skip    string // not comparable (Go rejected it, budget exhausted, ...): counted, never a violation
-	Msg     string
-	Go      *oracle.Result
-	Goat    goat.Result
+	OK   bool
+	Skip string // not comparable (Go rejected it, budget exhausted, ...): counted, never a violation
+	Msg  string
+	Go   *oracle.Result
+	Goat goat.Result
 }
 
 // Compare applies C01's comparison: identical stdout; if Go panicked, identical stdout up to the panic and an error
